@@ -558,6 +558,37 @@ fn run_case(which: &'static str, c: Case, seed: u64) -> Result<(), String> {
     Ok(())
 }
 
+/// C10 with limits far above the sizes of the random cases: 700 independent functions through the four
+/// for_each_concurrent* / try_for_each_concurrent* families, limits up to 699; the number of user futures between
+/// their first poll and their completion never exceeds the limit and every function runs.
+fn wide_limits(which: &'static str) -> Result<(), String> {
+    if which != "C10" && which != "all" { return Ok(()); }
+    let n = 700usize;
+    for limit in [3usize, 17, 128, 254, 255, 256, 257, 300, 512, 699] {
+        for api in 0..4 {
+            let c = Case { n, accs: (0..n).map(|i| Acc { id: i, reads: vec![], writes: vec![] }).collect(), edges: vec![], desc: "700 independent functions".into() };
+            let (mut g, _ids) = build(&c);
+            let st = Rc::new(RefCell::new((0usize, 0usize, 0usize))); // in flight, max, completed
+            let step = { let st = st.clone(); move || { let st = st.clone(); async move {
+                { let mut s = st.borrow_mut(); s.0 += 1; s.1 = s.1.max(s.0); }
+                YieldN(3).await;
+                { let mut s = st.borrow_mut(); s.0 -= 1; s.2 += 1; }
+            } } };
+            let name = ["for_each_concurrent", "for_each_concurrent_mut", "try_for_each_concurrent", "try_for_each_concurrent_mut"][api];
+            match api {
+                0 => { block_on(g.for_each_concurrent(Some(limit), |_f: &Acc| step())); }
+                1 => { block_on(g.for_each_concurrent_mut(Some(limit), |_f: &mut Acc| step())); }
+                2 => { let _ = block_on(g.try_for_each_concurrent(Some(limit), |_f: &Acc| { let fu = step(); async move { fu.await; Ok::<(), ()>(()) } })); }
+                _ => { let _ = block_on(g.try_for_each_concurrent_mut(Some(limit), |_f: &mut Acc| { let fu = step(); async move { fu.await; Ok::<(), ()>(()) } })); }
+            }
+            let (_, mx, done) = *st.borrow();
+            if mx > limit { return Err(format!("C10: {mx} user futures in flight with limit Some({limit}) in {name} on 700 independent functions")); }
+            if done != n { return Err(format!("C10: {name}(Some({limit})) ran {done} of {n} independent functions")); }
+        }
+    }
+    Ok(())
+}
+
 fn main() {
     let which: &'static str = match std::env::args().nth(1).as_deref() { Some("C01") => "C01", Some("C02") => "C02", Some("C03") => "C03", Some("C04") => "C04", Some("C05") => "C05", Some("C07") => "C07", Some("C09") => "C09", Some("C10") => "C10", Some("C20") => "C20", _ => "all" };
     let seed = std::env::var("VERIF_SEED").ok().and_then(|s| s.parse().ok()).unwrap_or(1u64);
@@ -593,6 +624,7 @@ fn main() {
     let tokio_mode = std::env::var("VERIF_EXECUTOR").as_deref() == Ok("tokio");
     READY_ONLY.store(false, std::sync::atomic::Ordering::Relaxed);
     if let Err(e) = budget_sweep(which) { println!("VIOLATION {e}"); std::process::exit(1); }
+    if let Err(e) = wide_limits(which) { println!("VIOLATION {e}"); std::process::exit(1); }
     for (k, c) in cases.into_iter().enumerate() {
         READY_ONLY.store(tokio_mode && (c.n > 50 || k % 2 == 0), std::sync::atomic::Ordering::Relaxed);
         if let Err(e) = run_case(which, c, seed.wrapping_add(k as u64)) {
